@@ -234,6 +234,9 @@ impl Env {
     }
 
     fn eval(&mut self, op: &str) {
+        if op.starts_with('#') {
+            return; // annotation lines carried inside a replay's `ops`
+        }
         let (kind, rest) = op.split_once(' ').unwrap_or((op, ""));
         if kind == "assert" {
             return self.eval_assert(op, rest);
